@@ -199,7 +199,11 @@ def to_val(v):
         if '.' in v.name or v.name[:1].isupper() or v.name.startswith('_'): return Val.opq(Val.s(STR.get('<callable ' + v.name + '>')))
         raise Unsupported(f"name `{v.name}` is used as a value but is not bound by the contract (renamed local?)")
     raise Unsupported(f"to_val {v!r}")
-def truthy(v):
+_float_is_zero = Function('float_is_zero', IntSort(), BoolSort()); _bytes_is_empty = Function('bytes_is_empty', IntSort(), BoolSort())
+def truthy(v, st=None):
+    """Python truth value. 0 / 0.0 / '' / b'' / timedelta(0) / None / empty list are false; objects without __bool__/__len__ are true.
+    (floats and bytes are opaque ids: their zero-ness / emptiness is an uninterpreted predicate, so `if x:` on them has BOTH outcomes)"""
+    if isinstance(v, PyList) and st is not None: return st.heap.llen[v.addr] > 0
     if isinstance(v, PyBool): return v.e
     if isinstance(v, PyInt): return v.e != 0
     if v is None: return BoolVal(False)
@@ -209,7 +213,7 @@ def truthy(v):
     if isinstance(v, int): return BoolVal(v != 0)
     v = to_val(v)
     return If(Val.is_none(v), False, If(Val.is_boolv(v), Val.b(v), If(Val.is_intv(v), Val.i(v) != 0, If(Val.is_strv(v), Val.s(v) != Val.s(EMPTY_STR),
-           If(Val.is_td(v), Val.tus(v) != 0, True)))))
+           If(Val.is_td(v), Val.tus(v) != 0, If(Val.is_floatv(v), Not(_float_is_zero(Val.f(v))), If(Val.is_bytesv(v), Not(_bytes_is_empty(Val.y(v))), True)))))))
 
 
 class Exec:
@@ -338,11 +342,11 @@ class Exec:
         if not es: return k(st, acc)
         return self.ev(es[0], st, lambda s, v: self.ev_list(es[1:], s, k, K, acc + [v]), K)
     def ev_UnaryOp(self, e, st, k, K):
-        if isinstance(e.op, ast.Not): return self.ev(e.operand, st, lambda s, v: k(s, PyBool(Not(truthy(v)))), K)
+        if isinstance(e.op, ast.Not): return self.ev(e.operand, st, lambda s, v: k(s, PyBool(Not(truthy(v, s)))), K)
         if isinstance(e.op, ast.USub): return self.ev(e.operand, st, lambda s, v: k(s, PyInt(-self.as_int(v))), K)
         raise Unsupported("unary operator " + ast.unparse(e))
     def ev_IfExp(self, e, st, k, K):
-        return self.ev(e.test, st, lambda s, v: self.branch(s, truthy(v), lambda a: self.ev(e.body, a, k, K), lambda b: self.ev(e.orelse, b, k, K)), K)
+        return self.ev(e.test, st, lambda s, v: self.branch(s, truthy(v, s), lambda a: self.ev(e.body, a, k, K), lambda b: self.ev(e.orelse, b, k, K)), K)
     def ev_Starred(self, e, st, k, K): return self.ev(e.value, st, k, K)
     def as_int(self, v):
         if isinstance(v, PyInt): return v.e
@@ -354,7 +358,7 @@ class Exec:
         def go(i, st2):
             def got(st3, v):
                 if i == len(e.values) - 1: return k(st3, v)
-                t = truthy(v)
+                t = truthy(v, st3)
                 if isinstance(e.op, ast.And): return self.branch(st3, t, lambda a: go(i + 1, a), lambda b: k(b, v))
                 return self.branch(st3, t, lambda a: k(a, v), lambda b: go(i + 1, b))
             return self.ev(e.values[i], st2, got, K)
@@ -368,8 +372,21 @@ class Exec:
             raise Unsupported("binary operator " + ast.unparse(e))
         return self.ev_list([e.left, e.right], st, got, K)
     def compare(self, op, l, r, st):
-        if isinstance(op, (ast.Is, ast.Eq)): return to_val(l) == to_val(r)
-        if isinstance(op, (ast.IsNot, ast.NotEq)): return to_val(l) != to_val(r)
+        if isinstance(op, (ast.Is, ast.IsNot)):
+            # identity. For None / True / False / classes / enum members / objects it coincides with equality of the modelled values; for str, bytes, int and float
+            # VALUES it does not (two equal strings are in general two objects): then `is` implies equality but not the converse - an unconstrained
+            # boolean, and the path is marked as depending on an approximation.
+            a_, b_ = to_val(l), to_val(r)
+            singleton = lambda x: x is None or isinstance(x, (bool, PyBool, PyObj, PyList, PyDict)) or (is_expr(x) and (x.eq(Val.none) or x.decl().name() in ('ref', 'clsv', 'opq', 'boolv', 'none')))
+            if singleton(l) or singleton(r): res = a_ == b_
+            else:
+                valuey = Or(Val.is_strv(a_), Val.is_bytesv(a_), Val.is_floatv(a_), Val.is_intv(a_))
+                same_obj = fresh('is_same_object', BoolSort())
+                if st is not None: approx(st, "`is` between values that may be str/bytes/int/float: identity of equal values is not determined by the language")
+                res = If(valuey, And(a_ == b_, same_obj), a_ == b_)
+            return res if isinstance(op, ast.Is) else Not(res)
+        if isinstance(op, ast.Eq): return to_val(l) == to_val(r)
+        if isinstance(op, ast.NotEq): return to_val(l) != to_val(r)
         if isinstance(op, (ast.Lt, ast.LtE, ast.Gt, ast.GtE)):
             a, b = self.as_int(l), self.as_int(r)
             return {ast.Lt: a < b, ast.LtE: a <= b, ast.Gt: a > b, ast.GtE: a >= b}[type(op)]
@@ -593,7 +610,7 @@ class Exec:
     def st_AugAssign(self, s, st, k, K):
         return self.ev(ast.BinOp(s.target, s.op, s.value), st, lambda st2, v: self.assign(s.target, v, st2, k, K), K)
     def _st_If_raw(self, s, st, k, K):
-        return self.ev(s.test, st, lambda st2, v: self.branch(st2, truthy(v), lambda a: self.block(s.body, a, k, K), lambda b: self.block(s.orelse, b, k, K)), K)
+        return self.ev(s.test, st, lambda st2, v: self.branch(st2, truthy(v, st2), lambda a: self.block(s.body, a, k, K), lambda b: self.block(s.orelse, b, k, K)), K)
     def st_Return(self, s, st, k, K):
         if s.value is None: return K['ret'](st, None)
         return self.ev(s.value, st, K['ret'], K)
